@@ -94,6 +94,20 @@ bool groups_equal(const Opm::ScheduleState& a, const Opm::ScheduleState& b) {
     return true;
 }
 
+// VFPProdTable::operator== also compares the KeywordLocation (line number in the input): two inputs that differ only in where
+// the table stands compare unequal.  The statement is about what the schedule means: compare everything but the location.
+static bool vfpprod_equal_modulo_location(const Opm::ScheduleState& a, const Opm::ScheduleState& b) {
+    const auto ka = a.vfpprod.keys(), kb = b.vfpprod.keys();
+    if (ka != kb) return false;
+    for (const auto& k : ka) {
+        const auto& x = a.vfpprod(k); const auto& y = b.vfpprod(k);
+        if (!(x.getTableNum() == y.getTableNum() && x.getDatumDepth() == y.getDatumDepth() && x.getFloType() == y.getFloType() && x.getWFRType() == y.getWFRType() && x.getGFRType() == y.getGFRType()
+              && x.getALQType() == y.getALQType() && x.getFloAxis() == y.getFloAxis() && x.getTHPAxis() == y.getTHPAxis() && x.getWFRAxis() == y.getWFRAxis() && x.getGFRAxis() == y.getGFRAxis()
+              && x.getALQAxis() == y.getALQAxis() && x.getTable() == y.getTable())) return false;
+    }
+    return true;
+}
+
 std::string state_member_diff(const Opm::ScheduleState& a, const Opm::ScheduleState& b, bool mask_events, bool mask_udq, bool mask_end_time) {
     std::string differs;
     auto chk = [&](bool same, const char* what) { if (!same && differs.empty()) differs = what; };
@@ -109,7 +123,7 @@ std::string state_member_diff(const Opm::ScheduleState& a, const Opm::ScheduleSt
     chk(a.network_balance.get() == b.network_balance.get(), "network_balance");
     chk(a.bhp_defaults.get() == b.bhp_defaults.get(), "bhp_defaults"); chk(a.gconsale.get() == b.gconsale.get(), "gconsale"); chk(a.gconsump.get() == b.gconsump.get(), "gconsump");
     chk(a.source.get() == b.source.get(), "source");
-    chk(a.target_wellpi == b.target_wellpi, "target_wellpi"); chk(a.next_tstep == b.next_tstep, "next_tstep"); chk(a.vfpprod == b.vfpprod, "vfpprod"); chk(a.vfpinj == b.vfpinj, "vfpinj");
+    chk(a.target_wellpi == b.target_wellpi, "target_wellpi"); chk(a.next_tstep == b.next_tstep, "next_tstep"); chk(vfpprod_equal_modulo_location(a, b), "vfpprod"); chk(a.vfpinj == b.vfpinj, "vfpinj");
     chk(a.start_time() == b.start_time(), "start_time"); chk(a.sim_step() == b.sim_step(), "sim_step"); chk(a.rptonly() == b.rptonly(), "rptonly"); chk(a.sumthin() == b.sumthin(), "sumthin");
     chk(a.oilvap() == b.oilvap(), "oilvap"); chk(a.nupcol() == b.nupcol(), "nupcol"); chk(a.whistctl() == b.whistctl(), "whistctl");
     chk(a.month_num() == b.month_num() && a.year_num() == b.year_num() && a.first_in_month() == b.first_in_month() && a.first_in_year() == b.first_in_year(), "calendar_flags");
